@@ -74,12 +74,28 @@ Definition ex_schema_arg_ty_max (s : schema) : nat :=
     | _ => acc
     end) 1%nat (sch_types s).
 
+(* every type a field can have: the declared types of the fields of the object and interface types (the meta-fields
+   have types of size 1) *)
+Definition ex_schema_field_tys (s : schema) : list ty :=
+  flat_map (fun t =>
+    match t with
+    | EObject _ _ _ _ fs _ | EInterface _ _ _ _ fs _ => map (fun f => fd_ty (c_val f)) fs
+    | _ => []
+    end) (sch_types s).
+
+Definition ex_schema_field_ty_max (s : schema) : nat :=
+  fold_right (fun t a => Nat.max (cv_ty_size t) a) 1%nat (ex_schema_field_tys s).
+
+(* largest type a value is completed against: a field's type on the concrete object type (schema); the types written
+   in the typed document are types of the schema too, they are kept in the bound for the proofs about documents *)
+Definition ex_ty_max (s : schema) (d : rdoc) : nat := Nat.max (rd_max rsl_max_ty d) (ex_schema_field_ty_max s).
+
 Definition ex_cfuel_for (d : rdoc) : nat := S (S (rd_sum rsl_nodes d + length (rd_frags d))).
 Definition ex_afuel_for (s : schema) (d : rdoc) : nat :=
   S (S (rd_sum rsl_arg_nodes d) * S (S (ex_schema_arg_ty_max s))).
 (* levels of nested selection sets: a path of fields passes through each fragment at most once *)
-Definition ex_fuel_for (d : rdoc) : nat :=
-  S (S (rd_max rsl_depth d) * S (length (rd_frags d)) * (2 * rd_max rsl_max_ty d + 8)).
+Definition ex_fuel_for (s : schema) (d : rdoc) : nat :=
+  S (S (rd_max rsl_depth d) * S (length (rd_frags d)) * (2 * ex_ty_max s d + 8)).
 
 Record eresponse := { er_data : option jmap; er_errors : list gerr }.
 
@@ -96,7 +112,7 @@ Definition ex_cx_for (s : schema) (d : rdoc) (vars : jmap) : ectx :=
 
 Definition execute_prog (s : schema) (d : rdoc) (vars : jmap) (root : str) (impls : list str)
   : prog (xres jmap * list gerr) :=
-  ex_selset (ex_fuel_for d) (ex_cx_for s d vars) [] root impls 0 (rd_sels d) [].
+  ex_selset (ex_fuel_for s d) (ex_cx_for s d vars) [] root impls 0 (rd_sels d) [].
 
 Definition ex_outcome (r : xres jmap * list gerr) : eoutcome :=
   match r with
